@@ -144,6 +144,43 @@ def run_more(chk, repo, dm):
                   floor=2)
     Q6 = chk.rule('Q6', 'frame sorts that merge records by time are stable (ties keep the recorded order)', floor=2)
     Q7 = chk.rule('Q7', 'role look-ups through DataInfo ignore dropped columns (type and descriptor indexers agree)', floor=2)
+    # Q14: records of one individual at one time are only "at the same time" within one reset group
+    Q14 = chk.rule('Q14', 'get_doseid: the key that finds records of an individual at the same time (groupby / duplicated over '
+                          'the id and the time column) also carries the reset group', floor=1)
+    gd = dm.functions.get('get_doseid')
+    if gd is None:
+        raise AnalysisError('get_doseid not found')
+
+    def role_names(fnode, attr):
+        return {n.targets[0].id for n in walk_no_nested(fnode) if isinstance(n, ast.Assign) and len(n.targets) == 1
+                and isinstance(n.targets[0], ast.Name) and unparse(n.value).endswith(f'.{attr}.name')}
+    ids_, idvs_ = role_names(gd.node, 'id_column'), role_names(gd.node, 'idv_column')
+    rg_names = {n.targets[0].id for n in walk_no_nested(gd.node) if isinstance(n, ast.Assign) and isinstance(n.targets[0], ast.Name)
+                and isinstance(n.value, ast.Constant) and n.value.value == '_RESETGROUP'}
+    n14 = 0
+    for c in ast.walk(gd.node):
+        if not (isinstance(c, ast.Call) and isinstance(c.func, ast.Attribute)
+                and c.func.attr in ('groupby', 'duplicated', 'drop_duplicates')):
+            continue
+        keys = [a for a in list(c.args) + [k.value for k in c.keywords if k.arg in ('by', 'subset')]
+                if isinstance(a, (ast.List, ast.Tuple))]
+        for kl in keys:
+            names = {e.id for e in kl.elts if isinstance(e, ast.Name)}
+            if not (names & ids_ and names & idvs_):
+                continue
+            n14 += 1
+            ok = any((isinstance(e, ast.Constant) and e.value == '_RESETGROUP') or (isinstance(e, ast.Name) and e.id in rg_names)
+                     for e in kl.elts)
+            chk.instance(Q14, f'get_doseid: {c.func.attr}({unparse(kl)}): reset group in the key: {ok}')
+            if not ok:
+                chk.violation(Q14, dm.rel, 'get_doseid', f'{c.func.attr}({unparse(kl)})',
+                              'records before and after a reset (EVID 3/4, TIME restarting) that share a TIME value count as '
+                              'simultaneous', line=c.lineno,
+                              witness='one individual, dose at TIME 0, EVID=4 later with TIME restarting at 0, an observation '
+                                      'at a TIME equal to that of a dose of the first occasion: it is moved to the dose period '
+                                      'before and gets time after dose 0')
+    if n14 == 0:
+        raise AnalysisError('Q14: no key over the id and the time column found in get_doseid')
     # Q5: assignments X['_FLAG'] = X[<event column>] <op> <const> in functions that build '_RESETGROUP'
     sets_ = {}
     for f in dm.functions.values():
